@@ -614,7 +614,7 @@ func init() {
 		Assumptions: []string{"process kill between two hook points (file-system steps), not power loss with torn writes", "real time: a query counts as unanswered after 30 s", "a runner that died is checked for listing and answering only"},
 		Exec:        execC04,
 		Coord:       coordC04,
-		CaseTimeout: 150 * time.Second,
+		CaseTimeout: 400 * time.Second,
 		NoFailFast:  true,
 	})
 }
